@@ -95,6 +95,12 @@ func VH_C15_TableMap(width, ncols, dbLen, tblLen, trailing int) {
 // VH_C15_TableMapWide: ncols columns (>= 250: multi-byte column count) with a
 // concrete type pattern cycling through all supported types, symbolic metadata.
 func VH_C15_TableMapWide(width, ncols int) {
+	// ncols >= 1000: (ncols-1000) columns that are all VARCHAR (2 metadata bytes each), so that the
+	// metadata block itself needs a multi-byte length (>= 251 bytes from 126 columns on)
+	allVarchar := ncols >= 1000
+	if allVarchar {
+		ncols -= 1000
+	}
 	f := vwFormat(BinlogChecksumAlgOff, width)
 	id := vhU64() & 0xffffffff
 	flags := vhU16()
@@ -105,6 +111,9 @@ func VH_C15_TableMapWide(width, ncols int) {
 	var metaBytes []byte
 	for c := 0; c < ncols; c++ {
 		types[c] = vhSupportedTypes[c%len(vhSupportedTypes)]
+		if allVarchar {
+			types[c] = TypeVarchar
+		}
 		switch vwMetaLen(types[c]) {
 		case 1:
 			b := vhU8()
